@@ -118,11 +118,48 @@ def task_flow(ctx):
     ctx.undecided_clause("RK4 global error constant (the flow identity is proved; norm drift is O(dt^5) per sub-step by the order of the method)")
 
 
+def replay_hop_probabilities(model):
+    """real _attempt_hop on real torch, 3 states, active state 1 with population 0.04: flux INTO it from state 0 (negative entry)
+    and OUT of it to state 2 (entry 0.08, i.e. g = 2 before the guard).  The probabilities the routine hands to cumsum must lie
+    in [0, 1] with row sum <= 1."""
+    import torch
+    import seqm.NonadiabaticDynamics as N
+
+    torch.set_default_dtype(torch.float64)
+    sh = object.__new__(N.SurfaceHoppingDynamics)
+    torch.nn.Module.__init__(sh)
+    amp = torch.zeros(1, 3, 3)
+    amp[0, :, 0] = torch.tensor([0.9, 0.2, 0.3873])
+    sh.__dict__.update(_active_states=torch.tensor([1]), _amp_phase=amp, _hop_integral=torch.tensor([[[0.0, 0.07, 0.0], [-0.07, 0.0, 0.08], [0.0, -0.08, 0.0]]]), _scratch={}, _arange_cache={}, _eye_cache={})
+    seen = {}
+    real_cumsum = torch.cumsum
+
+    def probe(x, dim):
+        seen["g"] = x.detach().clone()
+        return real_cumsum(x, dim)
+
+    torch.cumsum = probe
+    try:
+        tgt = sh._attempt_hop()
+    finally:
+        torch.cumsum = real_cumsum
+    g = seen["g"][0]
+    bad = bool((g < 0).any() or (g > 1 + 1e-12).any() or g.sum() > 1 + 1e-12)
+    return {"reproduced": bad, "hop_probabilities_used": g.tolist(), "row_sum": float(g.sum()), "active_state": 1, "population_of_active_state": 0.04, "hop_integral_row": [-0.07, 0.0, 0.08]}
+
+
 def task_attempt_hop(ctx):
     """O2: every g_ij in [0,1], sum_j g_ij <= 1, g_ii = 0, target = first j with cumulative probability >= r, and the
     chosen target has positive probability."""
     fn = ctx.under_contract(SH + "._attempt_hop")
     n = 3 if ctx.tier == "quick" else 4
+    rep = []
+
+    def _run_quiet(f):
+        try:
+            return f({})
+        except Exception as exc:  # noqa
+            return {"reproduced": False, "error": repr(exc)[:300]}
     for active in range(n):
         cap = {}
         saved_cumsum = st.cumsum
@@ -158,8 +195,8 @@ def task_attempt_hop(ctx):
             tag = "a=%d@p%d" % (active, p.path_id)
             gs = [g.a[0, j] for j in range(n)]
             for j in range(n):
-                ctx.prove("%s.g[%d]-in-[0,1]" % (tag, j), (gs[j] >= 0) & (gs[j] <= 1), pc=pc)
-            ctx.prove("%s.row-sum<=1" % tag, sum(gs) <= 1, pc=pc)
+                ctx.prove("%s.g[%d]-in-[0,1]" % (tag, j), (gs[j] >= 0) & (gs[j] <= 1), pc=pc, replay=lambda m_: (rep or rep.append(_run_quiet(replay_hop_probabilities)) or rep)[0])
+            ctx.prove("%s.row-sum<=1" % tag, sum(gs) <= 1, pc=pc, replay=lambda m_: (rep or rep.append(_run_quiet(replay_hop_probabilities)) or rep)[0])
             ctx.prove("%s.g[active]=0" % tag, gs[active] == 0, pc=pc)
             t = int(tgt.a[0])
             if t >= 0:
